@@ -416,9 +416,11 @@ def emit_outlines(b: Builder, case) -> None:
     """First/Next/Prev/Last/Parent/Count encoding of the forest (ISO 32000-1 12.3.3)."""
     forest = case["forest"]
     root_ref = Ref(b.alloc())
+    b.outline_ids = [root_ref.n]
 
     def emit_level(items, parent: Ref) -> Tuple[Optional[Any], Optional[Any]]:
         refs = [Ref(b.alloc()) for _ in items]
+        b.outline_ids += [r.n for r in refs]
         for i, it in enumerate(items):
             d: Dict[str, Any] = {"Parent": parent}
             if it.get("t") is not None:
@@ -547,20 +549,79 @@ def expected_dest_canon(d, npages: int) -> str:
     raise ValueError(d[0])
 
 
-def outline_pdf(case) -> bytes:
+def outline_builder(case) -> Builder:
     b = Builder(case.get("npages", 2))
+    b.outline_ids = []
     if not case.get("no_outlines"):
         emit_outlines(b, case)
-    return b.pdf()
+        ids = b.outline_ids
+        # damage: links rewired after the conforming encoding was written (cycles, shared or dangling links)
+        for kind, src, dst in case.get("damage", []):
+            d = b.objs[ids[src % len(ids)]]
+            target = Ref(99999) if dst < 0 else Ref(ids[dst % len(ids)])
+            if kind == "next":
+                d["Next"] = target
+            else:
+                d["First"] = target
+                d["Last"] = target
+    return b
+
+
+def outline_pdf(case) -> bytes:
+    return outline_builder(case).pdf()
+
+
+def canon_w(o) -> str:
+    """canon_obj for objects of the PDF writer (same text as pdfminer's view of them)."""
+    if isinstance(o, Ref):
+        return "R%d" % o.n
+    if isinstance(o, Name):
+        return "/" + o.b.decode("latin-1")
+    if isinstance(o, str):
+        return "/" + o
+    if isinstance(o, HexStr):
+        return "s" + o.b.hex()
+    if isinstance(o, bytes):
+        return "s" + o.hex()
+    if isinstance(o, bool):
+        return "true" if o else "false"
+    if isinstance(o, int):
+        return "i%d" % o
+    if isinstance(o, (list, tuple)):
+        return "[" + " ".join(canon_w(x) for x in o) + "]"
+    raise ValueError(o)
+
+
+def sx_outline_graph(b: Builder, it: "Intern") -> Tuple[int, str]:
+    """The outline dictionaries as an object graph (id, Title, Dest, A.D, SE, First, Last?, Next)."""
+    parts = []
+    for n in b.outline_ids:
+        d = b.objs[n]
+        t = d.get("Title")
+        tb = None if t is None else (t.b if isinstance(t, HexStr) else t)
+        parts.append("(%d %s %s %s %s %s %s %s)" % (
+            n, "-" if tb is None else "s:" + tb.hex(),
+            "-" if "Dest" not in d else str(it.get(canon_w(d["Dest"]))),
+            "-" if "A" not in d else str(it.get(canon_w(d["A"]["D"]))),
+            "1" if "SE" in d else "-",
+            str(d["First"].n) if "First" in d else "-",
+            "+" if "Last" in d else "-",
+            str(d["Next"].n) if "Next" in d else "-"))
+    return b.outline_ids[0], "(G " + " ".join(parts) + ")"
 
 
 def impl_outline(case) -> List[str]:
     from pdfminer.pdfdocument import PDFNoOutlines
     from pdfminer.pdftypes import resolve1
-    doc = open_doc(outline_pdf(case))
+    b = outline_builder(case)
+    doc = open_doc(b.pdf())
     out: List[str] = []
+    cap = len(b.outline_ids) + 2      # every dictionary yields at most one item
     try:
-        for (level, title, dest, a, se) in doc.get_outlines():
+        for (level, title, dest, a, se) in itertools.islice(doc.get_outlines(), cap + 1):
+            if len(out) >= cap:
+                out.append("E:unbounded")
+                break
             a1 = resolve1(a)
             out.append("%d:%s:%s:%s:%s" % (
                 level, cps(title),
@@ -1072,6 +1133,25 @@ def gen_outline_case(rng, wild: bool, special: Optional[str] = None) -> Dict[str
                     {"t": h(b"e%d" % i), "d": ["name", "foo"], "kids": []}]
         case["forest"] = node
         return case
+    if special == "damaged":
+        case["forest"] = gen_forest(rng, rng.choice([2, 4, 8, 15]), 0, tag, False, rng.choice([1, 3, 5]))
+        n = count_items(case["forest"]) + 1       # ids: 0 = Outlines dictionary, 1.. = items in emission order
+        dmg = []
+        for _ in range(rng.choice([1, 1, 2, 3])):
+            kind = rng.choice(["next", "next", "first"])
+            src = rng.randint(1, n - 1)
+            r = rng.random()
+            if r < 0.25:
+                dst = src                          # link to itself
+            elif r < 0.45:
+                dst = 0                            # back to the Outlines dictionary
+            elif r < 0.6:
+                dst = -1                           # dangling reference
+            else:
+                dst = rng.randint(0, n - 1)        # any other dictionary (ancestor, earlier sibling, cousin)
+            dmg.append([kind, src, dst])
+        case["damage"] = dmg
+        return case
     if special == "empty":
         case["forest"] = []
         return case
@@ -1319,6 +1399,19 @@ def eval_outline(ctx: C.Ctx, batch: Batch, case, wild: bool) -> None:
             out.append("%s:%s:%s:%s:%s" % (lvl, title, "-" if d == "-" else it.get(d), "-" if a == "-" else it.get(a),
                                            "-" if se == "-" else "1"))
         return "|".join(out) if out else "-"
+    damaged = bool(case.get("damage"))
+    small_in = case if n < 200 else {"kind": "outline", "items": n}
+    if not case.get("no_outlines"):
+        # the object-graph model (visited set): also for rewired links (cycles, shared, dangling)
+        root_id, gsx = sx_outline_graph(outline_builder(case), it)
+        batch.add("outline.graph %d %s" % (root_id, gsx), "outline.graph", small_in, internalise(impl), "model")
+    if damaged:
+        ctx.branch("outline:damaged:" + "+".join(sorted({d[0] + ("-dangling" if d[2] < 0 else "") for d in case["damage"]})))
+        if impl and impl[-1].startswith("E:"):
+            ctx.fail(C.Failure("get_outlines() does not end normally on an outline whose First/Next links are cyclic, "
+                               "shared or dangling (%s)" % impl[-1][2:], case, "a finite list of items", impl[-3:],
+                               {"component": "outline-cycle", "exception": impl[-1][2:]}))
+        return
     if not case.get("no_outlines"):
         root = sx_outline_root(case, it)
         batch.add("outline " + root, "outline", case if n < 200 else {"kind": "outline", "items": n},
@@ -1620,6 +1713,8 @@ def run(ctx: C.Ctx) -> None:
         eval_labels(ctx, batch, gen_labels_case(rng, wild), wild)
         eval_names(ctx, batch, gen_names_case(rng, wild), wild)
         eval_outline(ctx, batch, gen_outline_case(rng, wild), wild)
+        if i % 2 == 1:
+            eval_outline(ctx, batch, gen_outline_case(rng, True, "damaged"), True)
         if i % 200 == 199:
             batch.flush(ctx)
     if ctx.tier == "thorough" and ctx.time_left():
